@@ -15,6 +15,7 @@ import (
 	"sort"
 	"strings"
 	"sync"
+	"sync/atomic"
 	"time"
 
 	"github.com/gorilla/websocket"
@@ -124,6 +125,7 @@ type serverCfg struct {
 	pongOnly    time.Duration
 	pingPong    time.Duration
 	initTimeout time.Duration
+	detached    bool
 }
 
 func newServer(s *session, cfg serverCfg) (*httptest.Server, context.CancelFunc) {
@@ -176,6 +178,10 @@ func newServer(s *session, cfg serverCfg) (*httptest.Server, context.CancelFunc)
 				return ctx, nil, errors.New("rejected by the init function")
 			}
 			s.add(entry{kind: "initok"})
+			if cfg.detached {
+				// only the transport's own close() may end the operations then, not net/http cancelling the request
+				return context.WithoutCancel(ctx), nil, nil
+			}
 			return ctx, nil, nil
 		},
 		CloseFunc: func(ctx context.Context, code int) { s.add(entry{kind: "closefunc", code: code}) },
@@ -317,7 +323,9 @@ type script struct {
 	TransportWs bool    `json:"transport_ws"`
 	InitAccepts bool    `json:"init_accepts"`
 	Det         bool    `json:"deterministic"`
-	Tick        string  `json:"tick"` // "", ka, pong, ping
+	Tick        string  `json:"tick"`                           // "", ka, pong, ping
+	CloseFrame  bool    `json:"client_closes_with_close_frame"` // the client ends with a websocket Close control frame instead of dropping the socket
+	Detached    bool    `json:"init_context_detached"`          // InitFunc returns a context not tied to the request's cancellation
 	Labels      []label `json:"labels"`
 	Sig         string  `json:"sig,omitempty"`
 }
@@ -359,7 +367,7 @@ func outOfFrame(typ, id string) (string, bool) {
 
 func runScript(sc script) (*observed, error) {
 	s := &session{changed: make(chan struct{}, 1), ctl: map[string]chan string{}}
-	cfg := serverCfg{initAccepts: sc.InitAccepts}
+	cfg := serverCfg{initAccepts: sc.InitAccepts, detached: sc.Detached}
 	switch sc.Tick {
 	case "ka":
 		cfg.keepAlive = time.Millisecond
@@ -385,6 +393,15 @@ func runScript(sc script) (*observed, error) {
 	if err != nil {
 		return nil, err
 	}
+	var clientClosing atomic.Bool
+	dropSocket := func() {
+		if sc.CloseFrame {
+			clientClosing.Store(true)
+			_ = conn.WriteControl(websocket.CloseMessage, websocket.FormatCloseMessage(websocket.CloseNormalClosure, ""), time.Now().Add(time.Second))
+			return
+		}
+		_ = conn.UnderlyingConn().Close()
+	}
 	readerDone := make(chan struct{})
 	go func() {
 		defer close(readerDone)
@@ -395,6 +412,9 @@ func runScript(sc script) (*observed, error) {
 				var ce *websocket.CloseError
 				if errors.As(err, &ce) {
 					code = ce.Code
+				}
+				if clientClosing.Load() {
+					code = 0 // the peer's echo of our own Close frame
 				}
 				s.add(entry{kind: "sockclosed", code: code})
 				return
@@ -510,7 +530,7 @@ func runScript(sc script) (*observed, error) {
 			continue
 		case "abrupt":
 			issued = append(issued, l)
-			_ = conn.UnderlyingConn().Close()
+			dropSocket()
 			if !closed {
 				if sc.Det {
 					waitCount(func(e entry) bool { return e.kind == "closefunc" }, 1)
@@ -581,7 +601,7 @@ func runScript(sc script) (*observed, error) {
 			time.Sleep(3 * time.Millisecond)
 		}
 		issued = append(issued, label{K: "abrupt"})
-		_ = conn.UnderlyingConn().Close()
+		dropSocket()
 		waitCount(func(e entry) bool { return e.kind == "closefunc" }, 1)
 		closed = true
 		closeAll()
@@ -672,7 +692,7 @@ func leakedGoroutines() []string {
 // ---- script generation -------------------------------------------------------------------------------------
 
 func genScript(r *gen.Rand, det bool) script {
-	sc := script{TransportWs: r.Bool(), InitAccepts: !r.Chance(1, 14), Det: det}
+	sc := script{TransportWs: r.Bool(), InitAccepts: !r.Chance(1, 14), Det: det, CloseFrame: r.Chance(1, 3), Detached: r.Chance(1, 2)}
 	if !det {
 		if sc.TransportWs {
 			sc.Tick = gen.Pick(r, []string{"", "pong", "ping"})
@@ -744,7 +764,7 @@ func genScript(r *gen.Rand, det bool) script {
 			}
 			sc.Labels = append(sc.Labels, label{K: kind, Arg: "none"})
 			return sc
-		case k < 18 && r.Chance(1, 3) && (len(running) == 0 || !det):
+		case k < 18 && r.Chance(1, 3) && (len(running) == 0 || !det) && !sc.Detached:
 			sc.Labels = append(sc.Labels, label{K: "ctxcancel"})
 			return sc
 		}
